@@ -549,6 +549,8 @@ class YAMLPath:
                     segment_id = ""
 
                 seeking_collector_operator = False
+                # An & within the Collector belongs to its inner path
+                seeking_anchor_mark = False
                 collector_level += 1
                 demarc_stack.append(char)
                 demarc_count += 1
